@@ -54,6 +54,12 @@ Probes ==
     \cup {V("Udata", x) : x \in {N(0), N(127), N(128), N(16383), N(16384), M64}}
     \cup {V("ImplicitConst", x) : x \in {N(0), Neg8(1), N(64)}}
     \cup {[k |-> "Exprloc", b |-> Rep(150, n)] : n \in {0, 1, 127, 128}}     \* DW_OP_nop bytes
+    \cup {[k |-> "Exprloc", ops |-> o] : o \in
+            {<<[op |-> "constu", v |-> x]>> : x \in {N(0), N(31), N(32), P32}}
+            \cup {<<[op |-> "deref_type", size |-> 4, e |-> 6]>>, <<[op |-> "convert", e |-> 6]>>,      \* the base type, moved first
+                  <<[op |-> "deref_type", size |-> 8, e |-> 4]>>, <<[op |-> "convert", e |-> 2]>>,      \* forward / backward by placement
+                  <<[op |-> "call", e |-> 5]>>, <<[op |-> "call_ref", u |-> 2, e |-> 2]>>, <<[op |-> "call_ref", u |-> 1, e |-> 4]>>,
+                  <<[op |-> "constu", v |-> N(5)], [op |-> "deref_type", size |-> 1, e |-> 6], [op |-> "call", e |-> 4]>>}}
     \cup {V("Flag", TRUE), V("Flag", FALSE), [k |-> "FlagPresent"]}
     \cup {V("DebugInfoRefSup", x) : x \in {N(0), M32, P32}}
     \cup {V("DebugStrRefSup", x) : x \in {N(5), P32}}
@@ -197,6 +203,8 @@ Mods(D, nu) ==
       \cup {[op |-> "sibling", u |-> u, e |-> e, v |-> TRUE] : e \in {x \in 1..Len(U.ents) : U.ents[x].children # <<>>}}
       \cup {[op |-> "delete_child", u |-> u, p |-> p, e |-> e] : p \in 1..Len(U.ents), e \in 2..Len(U.ents)}
       \cup {SetCall(u, e, "DW_AT_const_value", V("Udata", N(200))) : e \in 1..Len(U.ents)}
+      \cup {SetCall(u, e, "DW_AT_location", [k |-> "Exprloc", ops |-> <<[op |-> "deref_type", size |-> 4, e |-> t]>>]) :
+              e \in 2..Len(U.ents), t \in 2..U.reserved}
       \cup {SetCall(u, e, "DW_AT_type", V("Data1", N(7))) : e \in 2..Len(U.ents)}
       \cup {[op |-> "delete", u |-> u, e |-> e, name |-> "DW_AT_type"] : e \in 2..Len(U.ents)}
       : u \in 1..nu}
@@ -241,15 +249,21 @@ Normalise(D) == [D EXCEPT !.units = [u \in DOMAIN D.units |-> DeleteAttr(D.units
 Beyond(D) == \E u \in 1..Len(D.units) : \E e \in 1..Len(D.units[u].ents) : \E a \in Range(D.units[u].ents[e].attrs) :
                 a.val.k \in {"UnitRef", "DebugInfoRef"} /\ RefBeyond(D, u, a.val)
 
-Emit1(s) == (Salt + Len(s.calls) + (IF s.calls = <<>> THEN 0 ELSE Len(s.calls[Len(s.calls)].op))) % EmitMod = 0
+(* deterministic sampling of final builder states (thorough tier, deep configurations) *)
+CallCode(k) == Len(k.op) + 7 * k.u + (IF "e" \in DOMAIN k THEN 11 * k.e ELSE 0) + (IF "p" \in DOMAIN k THEN 13 * k.p ELSE 0)
+               + (IF k.op = "set" THEN Len(k.name) + 17 * Len(k.val.k) + (IF "e" \in DOMAIN k.val THEN 19 * k.val.e ELSE 0)
+                                       + (IF "u" \in DOMAIN k.val THEN 23 * k.val.u ELSE 0)
+                  ELSE 0)
+RECURSIVE HashCalls(_, _, _)
+HashCalls(calls, i, h) == IF i > Len(calls) THEN h ELSE HashCalls(calls, i + 1, (h * 31 + CallCode(calls[i])) % 9973)
+Emit1(s) == HashCalls(s.calls, 1, Salt) % EmitMod = 0
 
-Inv == c.stage = 1 =>
+Inv == (c.stage = 1 /\ (Mode = "kinds" \/ Emit1(c))) =>
        LET D == Normalise(Apply(Start(c.encs), c.calls, 1))
            res == WriteResult(D, c.be) IN
        /\ SizeLemma(D)
        /\ LayoutLemma(D, res)
-       /\ (Mode = "kinds" \/ Emit1(c)) =>
-          PrintT(<<"CASE", ToJson([sys |-> "unitw", be |-> c.be, probe |-> c.probe,
+       /\ PrintT(<<"CASE", ToJson([sys |-> "unitw", be |-> c.be, probe |-> c.probe,
                                    units |-> [u \in DOMAIN c.encs |-> [version |-> c.encs[u].version, format |-> c.encs[u].word,
                                                                       asz |-> c.encs[u].asz]],
                                    calls |-> c.calls, beyond |-> Beyond(D), exp |-> res])>>)
